@@ -65,7 +65,46 @@ def same(a, b):
     return a == b and (type(a) is type(b) or isinstance(a, (int, float)) and isinstance(b, (int, float)) and not isinstance(a, bool))
 
 
+def header_case(case):
+    """the same value set on the header of a Gfa: the tag is written through the header split (one H line per tag)"""
+    idx, vlevel, tagname, version, _ = case
+    value, declared, default, valid = values()[idx]
+    fails = []
+    dt = declared or default
+    def fail(sig, what):
+        fails.append(dict(signature="C20:header:" + sig, what=what, case=dict(value=repr(value), declared=declared, vlevel=vlevel, tag=tagname),
+                          reproducer="import gfapy\ng = gfapy.Gfa(vlevel=%d, version=%r)\n%sg.header.set(%r, %r)\nprint(str(g)); print([str(h) for h in g.headers])" % (vlevel, version, ("g.header.set_datatype(%r, %r)\n" % (tagname, declared)) if declared else "", tagname, value)))
+    try:
+        g = gfapy.Gfa(vlevel=vlevel, version=version)
+        if declared:
+            g.header.set_datatype(tagname, declared)
+        g.header.set(tagname, value)
+        hs = [str(h) for h in g.headers if tagname + ":" in str(h)]
+        ts = [x for x in str(g).split("\n") if x.startswith("H\t") and tagname + ":" in x]
+        if hs != ts or len(hs) != 1:
+            fail("headers-and-text-differ", "%r vs %r" % (hs, ts))
+        else:
+            n, d, v = hs[0].split("\t")[-1].split(":", 2)
+            if d != dt:
+                fail("written-datatype:%s-instead-of-%s" % (d, dt), hs[0])
+            elif grammar.value_ok(dt, v) is False:
+                fail("written-value-not-in-grammar:%s" % dt, hs[0])
+            else:
+                g2 = gfapy.Gfa([hs[0]], vlevel=max(vlevel, 1))
+                if g2.header.get_datatype(tagname) != dt:
+                    fail("reparsed-datatype-differs:%s" % dt, hs[0])
+                elif not same(g2.header.get(tagname), value):
+                    fail("read-back-differs:%s" % dt, "%r -> %s -> %r" % (value, hs[0], g2.header.get(tagname)))
+    except gfapy.Error as e:
+        fail("raises-%s" % type(e).__name__, harness.short(e, 150))
+    except Exception as e:
+        fail("foreign-%s:%s" % (type(e).__name__, dt), harness.short(e, 150))
+    return dict(key=case, nontrivial=True, failures=fails, sample=dict(value=repr(value), declared=declared, vlevel=vlevel, carrier="header"))
+
+
 def check(case):
+    if len(case) == 5:
+        return header_case(case)
     idx, vlevel, tagname, version = case
     value, declared, default, valid = values()[idx]
     base = "S\tA\t*" if version == "gfa1" else "S\tA\t8\t*"
@@ -140,6 +179,8 @@ def cases(tier, seed):
         for vlevel in (0, 1, 2, 3):
             for tag, version in (("xx", "gfa1"), ("a1", "gfa2")):
                 out.append((i, vlevel, tag, version))
+                if values()[i][3] is True:
+                    out.append((i, vlevel, tag, version, "header"))
     return out
 
 
@@ -150,5 +191,5 @@ if __name__ == "__main__":
                       rule="value pool per Python type (integers at every B-subtype boundary +-1 and beyond 2^32, finite and non-finite floats, strings with spaces/tabs/newlines/non-ASCII, single characters, "
                            "nested JSON, integer arrays spanning each subtype range and just outside, float/mixed/empty arrays, byte arrays incl. empty) x declared datatype or new tag x vlevel 0-3 x 2 tag names: "
                            "default datatype, written syntax vs the grammar oracle, smallest array subtype, reparse returns an equal value and the same datatype; unrepresentable values are reported "
-                           "by validate() and by writing at level >= 2. exhaustive over the pool", bound="value pool of bounded/c20.py", exhaustive=True)
+                           "by validate() and by writing at level >= 2; every valid value is also set on the header of a Gfa and observed through Gfa.headers / str(Gfa) (header split). exhaustive over the pool", bound="value pool of bounded/c20.py", exhaustive=True)
     harness.emit(res)
